@@ -24,6 +24,9 @@ EXP = z3.Function("EXP", R, R)
 SQRT = z3.Function("SQRT", R, R)
 
 
+ALLOW_FLOAT = [False]
+
+
 class SymbolicBranchError(RuntimeError):
     """bool()/float() requested on a symbolic value that has no shadow / outside a Path"""
 
@@ -494,6 +497,8 @@ class SReal:
         return bool(s != 0)
 
     def __float__(s):
+        if ALLOW_FLOAT[0] and s.v is not None:
+            return float(s.v)        # API glue (e.g. building an info dict) may read the shadow; kernels never do
         raise SymbolicBranchError(f"float() on symbolic value {str(s.t)[:80]}")
 
     def __int__(s):
